@@ -61,6 +61,7 @@ func (k Keeper) EndBlockVSU(ctx sdk.Context) ([]abci.ValidatorUpdate, error) {
 	if err != nil {
 		return []abci.ValidatorUpdate{}, fmt.Errorf("computing the provider consensus validator set: %w", err)
 	}
+	ccv.VerifTrace(ctx, "PEndProvVals")
 
 	if k.BlocksUntilNextEpoch(ctx) == 0 {
 		// only queue and send VSCPackets at the boundaries of an epoch
@@ -69,6 +70,7 @@ func (k Keeper) EndBlockVSU(ctx sdk.Context) ([]abci.ValidatorUpdate, error) {
 		if err := k.QueueVSCPackets(ctx); err != nil {
 			return []abci.ValidatorUpdate{}, fmt.Errorf("queueing consumer validator updates: %w", err)
 		}
+		ccv.VerifTrace(ctx, "PEndQueueVSC")
 
 		// try sending VSC packets to all registered consumer chains;
 		// if the CCV channel is not established for a consumer chain,
@@ -76,6 +78,7 @@ func (k Keeper) EndBlockVSU(ctx sdk.Context) ([]abci.ValidatorUpdate, error) {
 		if err := k.SendVSCPackets(ctx); err != nil {
 			return []abci.ValidatorUpdate{}, fmt.Errorf("sending consumer validator updates: %w", err)
 		}
+		ccv.VerifTrace(ctx, "PEndSendVSC")
 	}
 
 	return valUpdates, nil
@@ -156,6 +159,7 @@ func (k Keeper) SendVSCPackets(ctx sdk.Context) error {
 			if err := k.SendVSCPacketsToChain(ctx, consumerId, channelID); err != nil {
 				return fmt.Errorf("sending VSCPacket to consumer, consumerId(%s): %w", consumerId, err)
 			}
+			ccv.VerifTrace(ctx, "PSendVSC", "c", consumerId)
 		}
 	}
 	return nil
@@ -174,6 +178,9 @@ func (k Keeper) SendVSCPacketsToChain(ctx sdk.Context, consumerId, channelId str
 			data.GetBytes(),
 			k.GetCCVTimeoutPeriod(ctx),
 		)
+		if err == nil {
+			err = ccv.VerifFail(ctx, "SendVSC:SendIBCPacket")
+		}
 		if err != nil {
 			if errors.Is(err, clienttypes.ErrClientNotActive) {
 				// IBC client is expired!
@@ -248,6 +255,7 @@ func (k Keeper) QueueVSCPackets(ctx sdk.Context) error {
 				"len updates", len(valUpdates),
 			)
 		}
+		ccv.VerifTrace(ctx, "PQueueVSC", "c", consumerId)
 	}
 
 	k.IncrementValidatorSetUpdateId(ctx)
